@@ -75,7 +75,9 @@ C20Verdict(r) ==
   LET valid == {i \in 1..Len(r.segs) : r.segs[i].kind = "valid"}
       toks == {r.segs[i].token : i \in valid}
       got == {r.delivered[j] : j \in 1..Len(r.delivered)}
-      missing == {i \in valid : r.segs[i].token \notin got}
+      \* (unheard: packets complete before any receive callback was registered - nobody's; absent in older records)
+      unheard == IF "unheard" \in DOMAIN r THEN {r.unheard[j] : j \in 1..Len(r.unheard)} ELSE {}
+      missing == {i \in valid : r.segs[i].token \notin got /\ r.segs[i].token \notin unheard}
   IN IF r.spin THEN "loop-monopolised"
      ELSE IF \E j \in 1..Len(r.delivered) : r.delivered[j] \notin toks THEN "delivered-corrupt-or-unsent-packet"
      ELSE IF \E i, j \in 1..Len(r.delivered) : i < j /\ r.delivered[i] >= r.delivered[j] THEN "duplicate-or-out-of-order"
@@ -89,7 +91,8 @@ C20Model(r) ==
   LET em == Flat(FoldReads(r.disc, <<>>, r.chunks, 1)) IN NonZero(TokensOf(em, r.packets, r.tokens, 1))
 
 Verdict(r) == IF IOEnv.MODE = "C20" THEN C20Verdict(r) ELSE C12Verdict(r)
-Drift(r) == IOEnv.MODE = "C20" /\ r.chunks # <<>> /\ C20Model(r) # r.delivered
+Unheard(r) == IF "unheard" \in DOMAIN r THEN {r.unheard[j] : j \in 1..Len(r.unheard)} ELSE {}
+Drift(r) == IOEnv.MODE = "C20" /\ r.chunks # <<>> /\ SelectSeq(C20Model(r), LAMBDA t : t \notin Unheard(r)) # r.delivered
 
 Verdicts ==
   LET idx == SelectSeq([k \in 1..Len(Recs) |-> k], LAMBDA k : Verdict(Recs[k]) # "ok")
